@@ -211,6 +211,8 @@ def nonempty(ctx, rule="C11.nonempty"):
 
 
 def rules(ctx):
+    from . import c04
+    c04.register_index(ctx, "C11.register-index")
     order(ctx)
     index_map(ctx)
     dagger(ctx)
